@@ -107,6 +107,35 @@ def run(ck):
             ck.ob("C07-R3", "onReady/no-interest-drop-after-drain", not same_iter, d_.loc, g,
                   "write interest is reset to Read before the drain, never after it" if not same_iter else
                   "modifyFd without NotifyOn::Write at %s runs after asyncWriteImpl: it cancels the write interest armed by a would-block" % same_iter[0].loc)
+    # R5: every write moved into a connection's FIFO (re-)arms write interest, unconditionally: the edge-triggered writable
+    # notification of an already-armed descriptor may have been consumed together with a readable event (onReady handles only one of
+    # the two), and only a fresh EPOLL_CTL_MOD makes the kernel report it again
+    ck.rule("C07-R5", "C must-pass-through",
+            "in Transport::handleWriteQueue every push into toWrite[fd] is followed, on every path to the next iteration or the exit, by "
+            "Reactor::modifyFd with NotifyOn::Write", 1)
+    hw = lib.single(prog, T + "handleWriteQueue")
+    pushes = [e for e in hw.calls(lambda e: e.base_callee() == "std::deque::push_back")]
+    ck.require(pushes, "push into toWrite not found in handleWriteQueue")
+    hheads = {h for h, _body in cfg.natural_loops(hw)}
+    for e in pushes:
+        miss = []
+
+        def step5(st, ev):
+            if ev["k"] == "call" and (ev.get("callee") or "") == "Pistache::Aio::Reactor::modifyFd" and lib.refs_enumerator(ev, "Pistache::Polling::NotifyOn::Write"):
+                return None
+            return st
+
+        def edge5(st, blk, k, succ):
+            if succ in hheads:
+                miss.append(blk.id)
+                return None
+            return st
+        exits5, _ = cfg.run_automaton(hw, 0, step5, edge=edge5, start=e.block, start_idx=e.idx + 1)
+        bad5 = [x for x in exits5 if x.kind != "throw"]
+        ck.ob("C07-R5", "handleWriteQueue/push-arms-write-interest", not miss and not bad5, e.loc, hw,
+              "modifyFd(Read|Write) after every queued write" if not miss and not bad5 else
+              "a write can be queued without re-arming write interest: if the descriptor's writable edge was already consumed, nothing wakes "
+              "the worker for this connection again")
     # R3b: arming reaches the kernel
     for m in prog.find("Pistache::Aio::Reactor::modifyFd", 2):
         chain = lib.reaches_external(prog, m, {"epoll_ctl"})
